@@ -43,6 +43,17 @@ struct Input { unsigned dim; Constraint_System cs; Congruence_System cgs; bool h
 template <typename D> struct Build { static D make(const Input& in) { C_Polyhedron p(in.dim); p.add_constraints(in.cs); return D(p); } };
 template <> struct Build<C_Polyhedron> { static C_Polyhedron make(const Input& in) { C_Polyhedron p(in.dim); p.add_constraints(in.cs); return p; } };
 template <> struct Build<NNC_Polyhedron> { static NNC_Polyhedron make(const Input& in) { NNC_Polyhedron p(in.dim); p.add_constraints(in.cs); return p; } };
+// a box keeps strict (open) bounds when it is built from interval constraints directly; other systems go through the closed polyhedron
+static bool all_interval(const Constraint_System& cs, unsigned dim) {
+  for (Constraint_System::const_iterator i = cs.begin(); i != cs.end(); ++i) {
+    unsigned nz = 0; for (unsigned j = 0; j < dim; ++j) if (j < i->space_dimension() && i->coefficient(Variable(j)) != 0) ++nz;
+    if (nz > 1) return false;
+  }
+  return true;
+}
+template <> struct Build<Rational_Box> { static Rational_Box make(const Input& in) {
+  if (all_interval(in.cs, in.dim)) { Rational_Box b(in.dim); b.add_constraints(in.cs); return b; }
+  C_Polyhedron p(in.dim); p.add_constraints(in.cs); return Rational_Box(p); } };
 template <> struct Build<Grid> { static Grid make(const Input& in) { Grid g(in.dim); g.add_congruences(in.cgs); g.add_constraints(in.cs); return g; } };
 template <> struct Build<PC> { static PC make(const Input& in) {
   PC x(in.dim, EMPTY); C_Polyhedron p(in.dim); p.add_constraints(in.cs); x.add_disjunct(p);
